@@ -585,7 +585,7 @@ tsk_variant_restricted_copy(const tsk_variant_t *self, tsk_variant_t *other)
     /* Tree sequence left as NULL and zero'd tree is a way of indicating this variant is
      * fixed and cannot be further decoded. */
     other->tree_sequence = NULL;
-    tsk_memset(&other->tree, sizeof(other->tree), 0);
+    tsk_memset(&other->tree, 0, sizeof(other->tree));
     other->traversal_stack = NULL;
     other->samples = NULL;
     other->sample_index_map = NULL;
